@@ -492,6 +492,58 @@ void run_tree(Tree t, const Options& opt) {
   ex::g = nullptr;
 }
 
+// ---- connect-time faults: the n-th connect() of one leaf throws ------------------------------------------------------
+// Model-free oracle: either the exception escapes the outer connect() (nothing was started, nothing may be signalled), or
+// the adaptor that connects that child lazily (sequence, let_*, finally, retry/repeat ...) turns it into exactly one
+// completion; in both cases every operation state that was constructed is destroyed exactly once, nothing is leaked and
+// nothing is touched after destruction (ASan).
+void run_tree_connect_fault(Tree t) {
+  int nodes = 0, nleaves = 0;
+  number(t, nodes, nleaves);
+  g_throw_node = -1;
+  ex::Ctx ctx; ex::g = &ctx;
+  ctx.leaves.resize(nleaves);
+  ctx.throw_connect_leaf = vmc::choose(nleaves);
+  ctx.throw_connect_nth = vmc::choose(2);
+  ctx.configure = [&](ex::LeafInfo& L) { L.outcome = "VED"[vmc::choose(3)]; L.mode = vmc::choose(2) ? Mode::Deferred : Mode::Inline; };
+  g_case = show(t) + " connect-throw@L" + std::to_string(ctx.throw_connect_leaf) + "#" + std::to_string(ctx.throw_connect_nth);
+  {
+    auto* src = new inplace_stop_source();
+    Top top; top.src = src;
+    bool connect_threw = false;
+    try {
+      dyn d = build(t);
+      using top_op_t = decltype(unifex::connect(d, ex::rref{&top}));
+      std::unique_ptr<top_op_t> op(new top_op_t(unifex::connect(d, ex::rref{&top})));
+      top.in_start = true;
+      unifex::start(*op);
+      top.in_start = false;
+      while (true) {
+        std::vector<int> live;
+        for (int i = 0; i < (int)ctx.pending.size(); ++i) if (ctx.pending[i].alive) live.push_back(i);
+        if (live.empty()) break;
+        auto& p = ctx.pending[live[vmc::choose((int)live.size())]];
+        p.alive = false;
+        auto fire = std::move(p.fire);
+        fire();
+      }
+      if (top.count != 1) fail("C01", "lost-completion", "quiescent (all children completed) but the outer receiver was signalled " + std::to_string(top.count) + " times");
+      delete src; src = nullptr;
+      op.reset();
+    } catch (const kit::tagged_error& e) {
+      connect_threw = true;
+      if (e.tag != 950 + ctx.throw_connect_leaf) fail("C05,C02", "foreign-exception", "unexpected exception escaped");
+      if (top.count != 0) fail("C01", "throw-and-complete", "an exception escaped although the receiver had been completed");
+    }
+    if (src) delete src;
+    for (int i = 0; i < nleaves; ++i) if (ctx.leaf(i).ops_alive != 0) fail("C02", "leaf-op-leak", "leaf L" + std::to_string(i) + " operation states leaked or destroyed twice: live=" + std::to_string(ctx.leaf(i).ops_alive));
+    if (ctx.sched_ops_alive != 0) fail("C02", "sched-op-leak", "schedule() operation states leaked: " + std::to_string(ctx.sched_ops_alive));
+    for (auto& kv : ctx.ledgers) if (kv.second.live != 0) fail("C02,C12", "alloc-leak", "allocator " + std::to_string(kv.first) + " has " + std::to_string(kv.second.live) + " live blocks after the operation was destroyed");
+    vmc::note(std::string(kname[t.kind]) + ":" + (connect_threw ? "X" : rstr(top.res)));
+  }
+  ex::g = nullptr;
+}
+
 // ---- tree enumeration: root kind x child kinds (depth 2) -----------------------------------------------------
 Tree leaf_tree() { return Tree{LEAF}; }
 Tree make_node(int kind, std::vector<Tree> kids) { Tree t; t.kind = kind; t.kids = std::move(kids); return t; }
@@ -522,6 +574,14 @@ VMC_SEQ_HARNESS(expr_d2, "C01,C02,C04,C05,C12") {
   Options o; o.faults = vmcrt::arg(1, 0) != 0; o.reactive = vmcrt::arg(2, 1) != 0; o.stop_events = vmcrt::arg(3, 1) != 0; o.trace_notes = vmcrt::arg(4, 0) != 0;
   std::vector<int> inner = all_kinds(); inner.insert(inner.begin(), LEAF);
   run_tree(choose_tree({root}, inner, 2), o);
+}
+
+// connect-time faults over the same trees (depth 1: arg0 = 0, depth 2 with root arg0 otherwise)
+VMC_SEQ_HARNESS(expr_cfault, "C02,C01,C05") {
+  int root = vmcrt::arg(0, 0);
+  std::vector<int> inner = all_kinds(); inner.insert(inner.begin(), LEAF);
+  if (root == 0) run_tree_connect_fault(choose_tree(all_kinds(), {LEAF}, 1));
+  else run_tree_connect_fault(choose_tree({root}, inner, 2));
 }
 
 // known finding: let_value_with_stop_source over a child that completes inside its stop callback
